@@ -177,7 +177,11 @@ static void vf_puthex(struct vf_ctx *c, const void *p, size_t n)
 
 /* measurement builds (tools/scanner_coverage.sh): _exit() would lose the gcov counters */
 #ifdef VF_GCOV
+#ifdef __cplusplus
+extern "C" void __gcov_dump(void);
+#else
 extern void __gcov_dump(void);
+#endif
 #define VF_GCOV_DUMP() __gcov_dump()
 #else
 #define VF_GCOV_DUMP() ((void) 0)
